@@ -813,10 +813,17 @@ void GridGlobal::setAnisotropicRefinement(TypeDepth type, int min_growth, int ou
     std::vector<int> weights;
     estimateAnisotropicCoefficients(type, output, weights);
 
+    // if the limits restrict every dimension and all admissible indexes are present, no growth is possible
+    auto limits_exhausted = [&]()->bool{
+        MultiIndexSet all_indexes = tensors;
+        if (!updated_tensors.empty()) all_indexes += updated_tensors;
+        return MultiIndexManipulations::isLimitsBoxFull(level_limits, all_indexes);
+    };
+
     int level = 0;
     do{
         updateGrid(++level, type, weights, level_limits);
-    }while(getNumNeeded() < min_growth);
+    }while((getNumNeeded() < min_growth) && !limits_exhausted());
 }
 
 void GridGlobal::setSurplusRefinement(double tolerance, int output, const std::vector<int> &level_limits){
